@@ -37,6 +37,14 @@ def semiMajorAxis (elem : List (List ℝ)) : ℝ := (elem.getD 1 []).getD 0 0
     (units of 1e-8 rad per Julian millennium) -/
 def leadAmp (tbl : List (List (ℝ × ℝ × ℝ))) : ℝ := ((tbl.getD 1 []).headD (0, 0, 0)).1
 
+/-- coefficient of `T²` of the mean longitude, degrees per century² (`table[0][2]`) -/
+def elemAccel (elem : List (List ℝ)) : ℝ := (elem.getD 0 []).getD 2 0
+
+/-- amplitude of the first term of series 2 of a table, converted from 1e-8 rad per millennium² to
+    degrees per century² (for a longitude table whose series 2 starts with the secular term `A t²`) -/
+def leadAccel (tbl : List (List (ℝ × ℝ × ℝ))) : ℝ :=
+  ((tbl.getD 2 []).headD (0, 0, 0)).1 / 100000000 * (180 / Real.pi) / 100
+
 /-- the same rate in degrees per Julian century -/
 def leadRate (tbl : List (List (ℝ × ℝ × ℝ))) : ℝ := leadAmp tbl / 100000000 * (180 / Real.pi) / 10
 
